@@ -20,6 +20,7 @@ import (
 	distrtypes "github.com/cosmos/cosmos-sdk/x/distribution/types"
 	stakingtypes "github.com/cosmos/cosmos-sdk/x/staking/types"
 	"github.com/ethereum/go-ethereum/common"
+	ethcrypto "github.com/ethereum/go-ethereum/crypto"
 	dbm "github.com/cometbft/cometbft-db"
 
 	stakingprecompile "github.com/haqq-network/haqq/precompiles/staking"
@@ -48,6 +49,7 @@ type evmcSetup struct {
 	Warm    int               `json:"warm"`
 	DelegC  string            `json:"delegC"`  // delegation owned by contract C0 (funded+delegated at set-up through a grantless path: bank send + keeper Delegate)
 	TxValue string            `json:"txValue"` // value attached to the top-level tx (only when top is a call)
+	Denom2  bool              `json:"denom2"`  // rewards also in a second denomination
 	Gas     uint64            `json:"gas"`     // gas limit of the transaction under test (default 3,000,000)
 }
 
@@ -67,6 +69,7 @@ var stakeURLOf = map[string]string{
 }
 
 type evmcRun struct {
+	kinds  map[int]string // op id -> op kind
 	n      *Node
 	w      *EvmWorld
 	names  []string // tracked account names
@@ -93,7 +96,7 @@ func (r *evmcRun) project(ctx sdk.Context) M {
 	app := r.n.App
 	nvals := len(r.n.W.Vals)
 	valName := func(i int) string { return fmt.Sprintf("V%d", i+1) }
-	bank, deleg, ubd, rewards, wd, storage, nonce := M{}, M{}, M{}, M{}, M{}, M{}, M{}
+	bank, deleg, ubd, rewards, wd, storage, nonce, code := M{}, M{}, M{}, M{}, M{}, M{}, M{}, M{}
 	nameOf := map[string]string{}
 	for _, nm := range r.names {
 		nameOf[r.addrs[nm].String()] = nm
@@ -129,6 +132,11 @@ func (r *evmcRun) project(ctx sdk.Context) M {
 			wd[nm] = "other:" + wa.String()
 		}
 		nonce[nm] = fmt.Sprint(app.EvmKeeper.GetNonce(ctx, common.BytesToAddress(a)))
+		if len(app.EvmKeeper.GetCode(ctx, common.BytesToHash(app.EvmKeeper.GetAccountOrEmpty(ctx, common.BytesToAddress(a)).CodeHash))) > 0 {
+			code[nm] = "yes"
+		} else {
+			code[nm] = "no"
+		}
 	}
 	// storage of the scenario's contracts: slot <op id> for every op they execute
 	for id, fr := range r.frames {
@@ -140,7 +148,11 @@ func (r *evmcRun) project(ctx sdk.Context) M {
 			st = M{}
 			storage[fr] = st
 		}
-		v := app.EvmKeeper.GetState(ctx, common.BytesToAddress(r.addrs[fr]), common.BigToHash(big.NewInt(int64(id))))
+		holder := common.BytesToAddress(r.addrs[fr])
+		if k := r.kinds[id]; k == "call" || k == "pc" || k == "recall" {
+			holder = r.w.recorderAddr() // success flags live in the recorder contract
+		}
+		v := app.EvmKeeper.GetState(ctx, holder, common.BigToHash(big.NewInt(int64(id))))
 		st[fmt.Sprintf("s%d", id)] = int(v.Big().Int64())
 	}
 	// grants from every tracked account to every tracked account
@@ -210,7 +222,7 @@ func (r *evmcRun) project(ctx sdk.Context) M {
 		storage["_"] = M{"_": 0}
 	}
 	return M{"bank": bank, "mods": mods, "supply": bigStr(app.BankKeeper.GetSupply(ctx, utils.BaseDenom).Amount),
-		"deleg": deleg, "ubd": ubd, "rewards": rewards, "wd": wd, "grants": grants, "grantVals": grantVals, "grantExp": grantExp, "storage": storage, "nonce": nonce, "commission": comm}
+		"deleg": deleg, "ubd": ubd, "rewards": rewards, "wd": wd, "grants": grants, "grantVals": grantVals, "grantExp": grantExp, "storage": storage, "nonce": nonce, "code": code, "commission": comm}
 }
 
 func evmcOne(tw *TraceWriter, scn int, src string, sc evmcScenario) {
@@ -229,10 +241,17 @@ func evmcOne(tw *TraceWriter, scn int, src string, sc evmcScenario) {
 	S, T := ew.Roles["S"], ew.Roles["T"]
 
 	// frames: which contract executes which op
-	if sc.Top.Op == "call" && len(sc.Top.Body) > 0 {
+	r.kinds = map[int]string{}
+	opKinds([]Op{sc.Top}, r.kinds)
+	switch {
+	case sc.Top.Op == "call" && len(sc.Top.Body) > 0:
 		r.frames[sc.Top.ID] = "S"
 		opFrames(fmt.Sprintf("C%d", sc.Top.ID), sc.Top.Body, r.frames)
-	} else {
+		opFrames(fmt.Sprintf("C%d", sc.Top.ID), sc.Top.Alt, r.frames)
+	case sc.Top.Op == "create":
+		r.frames[sc.Top.ID] = "S"
+		opFrames("N0", sc.Top.Body, r.frames)
+	default:
 		r.frames[sc.Top.ID] = "S"
 	}
 	cset := map[string]bool{}
@@ -300,6 +319,30 @@ func evmcOne(tw *TraceWriter, scn int, src string, sc evmcScenario) {
 		}
 		add(S, msg)
 	}
+	if sc.Setup.DelegC != "" && sc.Setup.DelegC != "0" {
+		// the contract C0 owns a delegation of its own (set up through the keepers: a contract has no key)
+		c0 := sdk.AccAddress(ew.contractAddr(0).Bytes())
+		dctx := n.Ctx()
+		amt := coin(sc.Setup.DelegC)
+		if err := n.App.BankKeeper.SendCoins(dctx, w.Acct("a6").Addr, c0, sdk.NewCoins(amt)); err != nil {
+			panic(err)
+		}
+		val, _ := n.App.StakingKeeper.GetValidator(dctx, w.Vals[0].ValAddr())
+		if _, err := n.App.StakingKeeper.Delegate(dctx, c0, amt.Amount, stakingtypes.Unbonded, val, true); err != nil {
+			panic(err)
+		}
+	}
+	if sc.Setup.Denom2 {
+		// a second denomination in the fee collector: delegation rewards in more than one denomination
+		dctx := n.Ctx()
+		c2 := sdk.NewCoins(sdk.NewCoin("aLIQUID9", sdkmath.NewInt(700_000_000_000_000_000)))
+		if err := n.App.BankKeeper.MintCoins(dctx, "coinomics", c2); err != nil {
+			panic(err)
+		}
+		if err := n.App.BankKeeper.SendCoinsFromModuleToModule(dctx, "coinomics", authtypes.FeeCollectorName, c2); err != nil {
+			panic(err)
+		}
+	}
 	n.EndBlock()
 	n.Commit()
 	warm := sc.Setup.Warm
@@ -317,11 +360,25 @@ func evmcOne(tw *TraceWriter, scn int, src string, sc evmcScenario) {
 	var to common.Address
 	var data []byte
 	value := new(big.Int)
+	create := false
 	if sc.Top.Op == "call" && len(sc.Top.Body) > 0 {
 		to = ew.contractAddr(sc.Top.ID)
-		if err := ew.compileBody(to, sc.Top.Body, codes); err != nil {
+		if err := ew.compileBody(to, sc.Top.Body, sc.Top.Alt, codes); err != nil {
 			panic(err)
 		}
+		if sc.Top.Value != "" {
+			value = mustBig(sc.Top.Value)
+		}
+	} else if sc.Top.Op == "create" {
+		// contract creation: the body is the constructor, the created contract has no runtime code
+		create = true
+		ew.Created = ethcrypto.CreateAddress(ethAddr(S), n.App.EvmKeeper.GetNonce(ctx, ethAddr(S)))
+		r.addrs["N0"] = sdk.AccAddress(ew.Created.Bytes())
+		if err := ew.compileBody(ew.Created, sc.Top.Body, nil, codes); err != nil {
+			panic(err)
+		}
+		data = codes[ew.Created]
+		delete(codes, ew.Created)
 		if sc.Top.Value != "" {
 			value = mustBig(sc.Top.Value)
 		}
@@ -332,7 +389,7 @@ func evmcOne(tw *TraceWriter, scn int, src string, sc evmcScenario) {
 			panic(err)
 		}
 	} else {
-		panic("top must be a call with body or a precompile call")
+		panic("top must be a call with body, a create or a precompile call")
 	}
 	fund := new(big.Int)
 	if sc.Setup.FundC != "" {
@@ -355,13 +412,20 @@ func evmcOne(tw *TraceWriter, scn int, src string, sc evmcScenario) {
 			panic(err)
 		}
 	}
+	if err := ew.InstallCode(ctx, ew.recorderAddr(), recorderCode, nil); err != nil {
+		panic(err)
+	}
 	pre := r.project(ctx)
 	nonce := n.App.EvmKeeper.GetNonce(ctx, ethAddr(S))
+	toPtr := &to
+	if create {
+		toPtr = nil
+	}
 	gasLimit := sc.Setup.Gas
 	if gasLimit == 0 {
 		gasLimit = 30_000_000
 	}
-	msg, err := BuildEthMsg(S, EthTxOpts{Type: 0, Nonce: nonce, To: &to, Value: value, Gas: gasLimit, GasPrice: gp, Data: data,
+	msg, err := BuildEthMsg(S, EthTxOpts{Type: 0, Nonce: nonce, To: toPtr, Value: value, Gas: gasLimit, GasPrice: gp, Data: data,
 		ChainID: n.App.EvmKeeper.ChainID()})
 	if err != nil {
 		panic(err)
